@@ -137,7 +137,8 @@ func c19Mixed(t *testing.T, plan *kernel.Plan, keepLog bool) *kernel.Result {
 					readable := [2]bool{author[rowID][order[0]] == reader, author[rowID][order[1]] == reader}
 					wantErr := false
 					for i, c := range [2]c19Col{first, second} {
-						if !readable[i] && c.policy == "error" {
+						// (an empty value is stored as it is: nothing to reveal, nothing to fail on)
+						if !readable[i] && c.policy == "error" && len(t1.Rows[rowID-1][2+order[i]]) > 0 {
 							wantErr = true
 						}
 					}
@@ -164,6 +165,13 @@ func c19Mixed(t *testing.T, plan *kernel.Plan, keepLog bool) *kernel.Result {
 							}
 							if !mysql && len(res.Fields) == 3 && res.Fields[1+i].DataTypeOID != c19OID[c.typ] {
 								w.Violate("C19", "column-described-as-declared-type", site, fmt.Sprintf("%s: described with oid %d", what, res.Fields[1+i].DataTypeOID))
+							}
+							continue
+						}
+						if len(stored) == 0 {
+							emptyBytea := !mysql && format == 0 && string(cell) == "\\x" && len(res.Fields) == 3 && res.Fields[1+i].DataTypeOID == 17
+							if len(cell) != 0 && !emptyBytea {
+								w.Violate("C19", "empty-value-stays-empty", site, fmt.Sprintf("%s: got %.40q for an empty stored cell", what, cell))
 							}
 							continue
 						}
